@@ -203,7 +203,10 @@ def mapping(func, ref_sigs, threshold=0.34, qual=None):
     order_ref = ref_sigs.get("__order__") or []
     ref_sigs = {k: v for k, v in ref_sigs.items() if not k.startswith("__")}
     cur = signatures(func)
-    cur_only = set(cur) - set(ref_sigs)
+    # names the normal-form layers introduce themselves are nobody's rename
+    import re as _re
+    cur_only = {c for c in set(cur) - set(ref_sigs) if not _re.search(
+        r"^_(ret|unused|h|res|ifx|test|elem)__[a-z]?\d+$", c)}
     ref_only = set(ref_sigs) - set(cur)
     if not cur_only or not ref_only:
         return {}
